@@ -83,8 +83,10 @@ def check_shape(run, rng, model, m, tier, light=False):
         # finding C18-optional-identifier-wide-selector: the selector of an open type governed by an OPTIONAL member declares its value as
         # `const <member name>_t *` under -fwide-types (asn1c_type_name()'s static buffer is overwritten by MKID_safe() before it is used)
         named = [members[i] for i in pyres if members[i]["opt"]]
-        if named and all(re.search(r"unknown type name .%s_t" % re.escape(c_name(x["name"])), m.get("build_log", "")) for x in named) and \
-           not re.search(r"error: (?!unknown type name .(%s)_t)" % "|".join(re.escape(c_name(x["name"])) for x in named), m.get("build_log", "")):
+        # (the build log is the tail of one make run over all modules: this module's lines)
+        blog = "\n".join(x for x in m.get("build_log", "").splitlines() if x.startswith(m["name"] + "/"))
+        if named and "error:" in blog and all(re.search(r"unknown type name .%s_t" % re.escape(c_name(x["name"])), blog) for x in named) and \
+           not re.search(r"error: (?!unknown type name .(%s)_t)" % "|".join(re.escape(c_name(x["name"])) for x in named), blog):
             run.known_finding("C18-optional-identifier-wide-selector", m["name"])
             return
     if not m.get("exe"):
